@@ -105,6 +105,37 @@ theorem c13_grid_each_point_once (τ : Type) (c : GridCfg V) (k0 : Option Int)
   · intro p; rw [hfirst]; exact mem_gridEnum _ hpos p
   · rw [hnext, hfirst]
 
+/-- What the service lets one observe (the trials of one response are created together): after
+EVERY request of any run with restarts, no grid point has been suggested two times more often
+than another and nothing but grid points has been suggested.  (`firstUnbalanced` applies
+`countsBalanced` to every prefix of batches; a prefix of a run is a run.) -/
+theorem c13_grid_prefix_balanced [BEq (List (String × V))] [LawfulBEq (List (String × V))]
+    (τ : Type) (c : GridCfg V) (k0 : Option Int)
+    (hpos : GridPos (c.effective k0)) (hnd : GridNodup (c.effective k0))
+    (steps : List (Step τ)) (rs : List (Option (Option Int))) :
+    countsBalanced (gridEnum (c.effective k0))
+      ((gridDesigner τ c).runRestart ((gridDesigner τ c).fresh k0) steps rs).flatten = true := by
+  rw [c13_grid_run_enumerates]
+  exact cyc_balanced _ hpos hnd _
+
+omit [Inhabited V] in
+/-- The shuffle is only assumed to be a permutation determined by the seed (parameters permuted,
+every value list permuted).  Then the shuffled grid has the hypotheses of
+`c13_grid_each_point_once` whenever the unshuffled one has, the same number of points, and its
+points are — read as dictionaries — exactly the points of the unshuffled grid. -/
+theorem c13_shuffled_grid_same_points (c : GridCfg V)
+    (hsh : ∀ s, ShuffleOf c.base (c.shuffle s c.base)) (k : Option Int)
+    (hpos : GridPos c.base) (hnd : GridNodup c.base) :
+    GridPos (c.effective k) ∧ GridNodup (c.effective k) ∧
+      gridSize (c.effective k) = gridSize c.base ∧
+      (∀ p', IsGridPoint (c.effective k) p' → ∃ p, p.Perm p' ∧ IsGridPoint c.base p) ∧
+      (∀ p, IsGridPoint c.base p → ∃ p', p'.Perm p ∧ IsGridPoint (c.effective k) p') := by
+  have h : ShuffleOf c.base (c.effective k) := by
+    cases k with
+    | none => exact ShuffleOf.refl _
+    | some s => exact hsh s
+  exact ⟨h.gridPos hpos, h.gridNodup hnd, h.gridSize_eq, h.point_iff.1, h.point_iff.2⟩
+
 /-- the judge the check applies to the REAL suggestions is sound and complete for
 "is a permutation of the grid enumeration" -/
 theorem c13_judge_correct [DecidableEq V] (gv : GridValues V) (hpos : GridPos gv) (hnd : GridNodup gv)
